@@ -205,6 +205,36 @@ pub fn observe(log: &MultiRecordLog) -> Obs {
     obs
 }
 
+/// the read accessors agree with one another: `summary()` has exactly the listed queues and its
+/// `end` is `last_position`, `queue_exists` holds of exactly the listed queues, the accessors of a
+/// missing queue report `MissingQueue`
+pub fn accessor_inconsistency(log: &MultiRecordLog) -> Option<String> {
+    let summary = log.summary();
+    let names: Vec<String> = log.list_queues().map(|s| s.to_string()).collect();
+    let mut listed: Vec<&String> = names.iter().collect();
+    listed.sort();
+    let keys: Vec<&String> = summary.queues.keys().collect();
+    if listed != keys {
+        return Some(format!("summary() lists {} queues, list_queues() {}", keys.len(), listed.len()));
+    }
+    for name in &names {
+        if !log.queue_exists(name) {
+            return Some(format!("queue_exists is false for the listed queue {:?}", &name[..name.len().min(40)]));
+        }
+        let last = log.last_position(name).ok().flatten();
+        if summary.queues.get(name).map(|s| s.end) != Some(last) {
+            return Some(format!("summary().end of {:?} is not last_position()", &name[..name.len().min(40)]));
+        }
+    }
+    let ghost = "\u{1}no-such-queue\u{1}";
+    if !names.iter().any(|n| n == ghost) {
+        if log.queue_exists(ghost) || log.last_position(ghost).is_ok() || log.last_record(ghost).is_ok() || log.range(ghost, ..).is_ok() {
+            return Some("an accessor does not report MissingQueue for a queue that does not exist".into());
+        }
+    }
+    None
+}
+
 pub fn opt_s<T: ToString>(o: &Option<T>) -> String {
     o.as_ref().map(|x| x.to_string()).unwrap_or("-".into())
 }
@@ -482,7 +512,7 @@ impl Real {
                         let bufs: Vec<Vec<u8>> = payloads.iter().map(|p| p.bytes()).collect();
                         // single appends go through `append_record` every other time (the thin
                         // wrapper is API surface too)
-                        let single = bufs.len() == 1 && (bufs[0].len() + pos.unwrap_or(0) as usize) % 2 == 0;
+                        let single = bufs.len() == 1 && (bufs[0].len() % 2 == 0) == (pos.unwrap_or(0) % 2 == 0);
                         // the batch API takes any iterator of any `Buf`: vary the shape (exact size,
                         // unknown upper bound, no bounds at all, payloads in two chunks)
                         let shape = (bufs.len() + bufs.iter().map(|b| b.len()).sum::<usize>() + pos.unwrap_or(0) as usize / 3) % 4;
@@ -691,12 +721,30 @@ pub fn io_kind(tok: &str) -> std::io::ErrorKind {
     IO_KINDS.iter().find(|(t, _)| *t == tok).map(|(_, k)| *k).unwrap_or(std::io::ErrorKind::Other)
 }
 
-pub fn power_loss_image(os: &[OsOp], instant: usize) -> (Img, Vec<u64>, Vec<(u64, u64)>) {
+/// `undone`: of the unlinks issued since the last fsync of the directory, the last `undone` are not
+/// durable (directory operations persist in order): those files are back, with the content a
+/// power loss leaves them (what was fdatasync-ed; the rest of the pre-sized file reads as zeros)
+pub fn power_loss_image(os: &[OsOp], instant: usize, undone: usize) -> (Img, Vec<u64>, Vec<(u64, u64)>) {
     let mut img = Img::new();
     let mut written_end: BTreeMap<u64, u64> = BTreeMap::new();
     let mut synced_end: BTreeMap<u64, u64> = BTreeMap::new();
     let mut dir_synced: std::collections::BTreeSet<u64> = Default::default();
+    let mut und: Vec<(u64, Vec<u8>)> = Vec::new();
     for op in &os[..instant.min(os.len())] {
+        if let OsOp::Unlink(f) = op {
+            if dir_synced.contains(f) {
+                if let Some(c) = img.get(f) {
+                    let mut c = c.clone();
+                    let s = synced_end.get(f).copied().unwrap_or(0);
+                    if written_end.get(f).copied().unwrap_or(0) > s {
+                        for b in c.iter_mut().skip(s as usize) {
+                            *b = 0;
+                        }
+                    }
+                    und.push((*f, c));
+                }
+            }
+        }
         apply_os(&mut img, op, None);
         match op {
             OsOp::Write { file, off, data } => {
@@ -708,10 +756,12 @@ pub fn power_loss_image(os: &[OsOp], instant: usize) -> (Img, Vec<u64>, Vec<(u64
             }
             OsOp::SyncDir => {
                 dir_synced = img.keys().copied().collect();
+                und.clear();
             }
             _ => {}
         }
     }
+    let back: Vec<(u64, Vec<u8>)> = und[und.len() - undone.min(und.len())..].to_vec();
     let mut drop = Vec::new();
     let mut zero = Vec::new();
     let files: Vec<u64> = img.keys().copied().collect();
@@ -731,5 +781,21 @@ pub fn power_loss_image(os: &[OsOp], instant: usize) -> (Img, Vec<u64>, Vec<(u64
             zero.push((f, s));
         }
     }
+    for (f, c) in back {
+        img.insert(f, c);
+    }
     (img, drop, zero)
+}
+
+/// number of unlinks issued since the last fsync of the directory, after `instant` OS operations
+pub fn pending_unlinks(os: &[OsOp], instant: usize) -> usize {
+    let mut n = 0;
+    for op in &os[..instant.min(os.len())] {
+        match op {
+            OsOp::Unlink(_) => n += 1,
+            OsOp::SyncDir => n = 0,
+            _ => {}
+        }
+    }
+    n
 }
